@@ -111,7 +111,16 @@ WModelAgrees(r, base, acc) ==
   IN /\ m.ok = acc.ok
      /\ m.ok => /\ Shape(m.content) = Shape(acc.content)
                 /\ m.dirs = acc.dirs /\ m.files = acc.files /\ m.links = acc.links /\ m.bytes = acc.bytes
-Wr0 == [scans |-> 0, accelerated |-> 0, judged |-> 0, weak |-> 0, weakdiff |-> 0, model_drift |-> 0,
+\* ---- a scan abandoned part-way, then the retry with the same hasher (and baseline, caches, re-check set) ----
+\* Records carrying "aborted" are such retries; they are judged like any other record (the retry's digests must
+\* not depend on the abandoned attempt).  What the abandoned attempt itself reported is a conformance counter:
+\* a cancellation fails the scan, a read error or size mismatch makes exactly that file a problem (AccelScan!AFile).
+AbortAsModelled(r) ==
+  Has(r, "aborted") =>
+    /\ r.aborted.fired
+    /\ (r.aborted.kind = "cancel" => ~r.aborted.ok)
+    /\ (r.aborted.kind # "cancel" => r.aborted.ok /\ r.aborted.problem # "")
+Wr0 == [retries |-> 0, abort_drift |-> 0, scans |-> 0, accelerated |-> 0, judged |-> 0, weak |-> 0, weakdiff |-> 0, model_drift |-> 0,
         recheck_drift |-> 0, disable_drift |-> 0, mode_drift |-> 0, warm |-> 0, warm_persisted_same |-> 0]
 B(x) == IF x THEN 1 ELSE 0
 
@@ -126,7 +135,8 @@ ModelAgreesCold(r) ==
 StepScan(r) == /\ fails' = Cap(fails \o ScanFails(l, r))
                /\ judged' = judged + 1
                /\ drift' = drift + (IF "Stats" \in Want /\ ~r.scan.hung /\ ~ModelAgreesCold(r) THEN 1 ELSE 0)
-               /\ UNCHANGED <<unjudged, weak, weakdiff, wr>>
+               /\ wr' = [wr EXCEPT !.retries = @ + B(Has(r, "aborted")), !.abort_drift = @ + B(~AbortAsModelled(r))]
+               /\ UNCHANGED <<unjudged, weak, weakdiff>>
 StepAccel(r) ==
   LET base == Norm(r.base) acc == Norm(r.accel) cold == Norm(r.cold)
       common == Common(r, base)
@@ -140,7 +150,7 @@ StepAccel(r) ==
      /\ weak' = weak + (IF w THEN 1 ELSE 0)
      /\ weakdiff' = weakdiff + (IF w /\ ~SameSnapshot(acc, cold) THEN 1 ELSE 0)
      /\ drift' = drift + (IF stats /\ r.base.ok /\ ~ModelAgrees(r, base, acc) THEN 1 ELSE 0)
-     /\ UNCHANGED wr
+     /\ wr' = [wr EXCEPT !.retries = @ + B(Has(r, "aborted")), !.abort_drift = @ + B(~AbortAsModelled(r))]
 StepWScan(r) ==
   LET base == NormBase(r.base) acc == Norm(r.accel) cold == Norm(r.cold)
       common == WCommon(r, base)
@@ -173,6 +183,7 @@ Step == /\ l <= NRec
 Finish == /\ l = NRec + 1 /\ ~done
           /\ WriteResult(l - 1, fails, [stat_judged |-> judged, stat_unjudged |-> unjudged, stat_drift |-> drift,
                                         stat_weak_cases |-> weak, stat_weak_differs |-> weakdiff,
+                                        stat_retries_after_abort |-> wr.retries, stat_abort_drift |-> wr.abort_drift,
                                         stat_ep_scans |-> wr.scans, stat_ep_accelerated |-> wr.accelerated,
                                         stat_ep_judged |-> wr.judged, stat_ep_weak_cases |-> wr.weak,
                                         stat_ep_weak_differs |-> wr.weakdiff, stat_ep_model_drift |-> wr.model_drift,
